@@ -24,11 +24,21 @@ def step (x : S) (w : List String) : Option (S × String × List String) :=
   | ["run", _, _, _, _, _, _] => some ({}, "ok", [])
   | ["config", c] => some ({ x with cleanerKind := if c == "cleaner=1" then 1 else 0 }, "ok", [])
   | ["put"] => some (x, "ok", [])        -- empty batch (not generated)
-  | ["put", vs] => do
+  | ["put", vs, n] => do
     let vs ← (vs.splitOn ",").mapM String.toNat?
+    let n ← kv n "n"
+    -- one Put = one critical section that appends the WHOLE batch
+    if n != (vs.length : Int) then rej x s!"a Put of {vs.length} values appended {n} of them in one critical section (the batch is not atomic)" else
     let (s', e) := put s vs
     if e.isSome then rej x "Put appended although the buffer is closed" else
     some ({ x with st := s' }, "ok", if vs.length ≥ 2 then ["batch2"] else [])
+  | ["putr", first, count, n] => do
+    let first ← first.toNat?; let count ← count.toNat?
+    let n ← kv n "n"
+    if n != (count : Int) then rej x s!"a Put of {count} values appended {n} of them in one critical section (the batch is not atomic)" else
+    let (s', e) := put s ((List.range count).map (· + first))
+    if e.isSome then rej x "Put appended although the buffer is closed" else
+    some ({ x with st := s' }, "ok", ["batch2", "large_batch"])
   | ["newconsumer", c, base] => do
     let c ← c.toNat?; let base ← kv base "base"
     if c != s.cons.length then rej x s!"consumer numbering: model has {s.cons.length}" else
